@@ -180,20 +180,37 @@ def gridPathCellsSize (s e : BitVec 64) : R Int := do
   let d ← gridDistance s e
   pure (d + 1)
 
-/-- `(int)round(x)` for the small magnitudes that occur -/
-def roundToInt (x : Float) : Int := (Float.round x).toInt64.toInt
+/-- the operations `cubeRound` uses, so that it can be instantiated with IEEE doubles (execution,
+bit-identical to C) and with exact rationals (theorems) -/
+class RoundField (α : Type) where
+  ofInt : Int → α
+  sub : α → α → α
+  abs : α → α
+  gt : α → α → Bool
+  /-- C `(int)round(x)`: nearest integer, halves away from zero -/
+  roundInt : α → Int
 
-/-- `cubeRound` (IEEE doubles exactly as in C) -/
-def cubeRound (i j k : Float) : CoordIJK :=
-  let ri := roundToInt i
-  let rj := roundToInt j
-  let rk := roundToInt k
-  let iDiff := Float.abs (Float.ofInt ri - i)
-  let jDiff := Float.abs (Float.ofInt rj - j)
-  let kDiff := Float.abs (Float.ofInt rk - k)
-  if iDiff > jDiff && iDiff > kDiff then ⟨-rj - rk, rj, rk⟩
-  else if jDiff > kDiff then ⟨ri, -ri - rk, rk⟩
+/-- `cubeRound` (localij.c:633), generic -/
+def cubeRoundG {α : Type} [RoundField α] (i j k : α) : CoordIJK :=
+  let ri := RoundField.roundInt i
+  let rj := RoundField.roundInt j
+  let rk := RoundField.roundInt k
+  let iDiff := RoundField.abs (RoundField.sub (RoundField.ofInt ri : α) i)
+  let jDiff := RoundField.abs (RoundField.sub (RoundField.ofInt rj : α) j)
+  let kDiff := RoundField.abs (RoundField.sub (RoundField.ofInt rk : α) k)
+  if RoundField.gt iDiff jDiff && RoundField.gt iDiff kDiff then ⟨-rj - rk, rj, rk⟩
+  else if RoundField.gt jDiff kDiff then ⟨ri, -ri - rk, rk⟩
   else ⟨ri, rj, -ri - rj⟩
+
+instance : RoundField Float where
+  ofInt := Float.ofInt
+  sub := (· - ·)
+  abs := Float.abs
+  gt a b := a > b
+  roundInt x := (Float.round x).toInt64.toInt
+
+/-- `cubeRound` on IEEE doubles exactly as in C -/
+def cubeRound (i j k : Float) : CoordIJK := cubeRoundG i j k
 
 /-- `gridPathCells`: (error?, cells written so far) -/
 def gridPathCells (s e : BitVec 64) : Option H3Error × Array (BitVec 64) :=
